@@ -10,6 +10,7 @@
   dtype-level effects of dropped casts are outside the exact value domain.
 -/
 import PtProofs.RaiseLemmas
+import PtProofs.RaiseReduceLemmas
 namespace Pt
 open Raise
 
@@ -80,38 +81,183 @@ theorem raise_sound (e : SExpr) (shape : Shape) (env : List (String × Arr Val))
       rw [tryBroadcast_noCasts e shape _ h hr]
       exact tryBroadcast_sound shape env i hi _ _ hr
 
+/-- a `ReduceOp` answer can only come from the reduction stage -/
+theorem raise_reduce_inv (e : SExpr) (shape : Shape) (bs : List (String × Shape)) (h : HLO)
+    (hr : raise e shape bs = some h) (hred : h.isReduce = true) :
+    tryReduce e shape bs = some h := by
+  simp only [raise] at hr
+  by_cases hl : isLit (dropCasts e) = true
+  · rw [if_pos hl] at hr
+    simp only [Option.some.injEq] at hr
+    subst hr; simp [HLO.isReduce] at hred
+  · rw [if_neg hl] at hr
+    cases h1 : tryBinary (dropCasts e) shape bs with
+    | some h' =>
+      simp only [h1, Option.orElse, Option.some.injEq] at hr; subst hr
+      exfalso
+      simp only [tryBinary] at h1
+      split at h1
+      · split at h1
+        · simp only [Option.some.injEq] at h1; subst h1; simp [HLO.isReduce] at hred
+        · cases h1
+      · cases h1
+    | none =>
+    cases h2 : tryCall (dropCasts e) shape bs with
+    | some h' =>
+      simp only [h1, h2, Option.orElse, Option.some.injEq] at hr; subst hr
+      exfalso
+      unfold tryCall at h2
+      split at h2
+      · split at h2
+        · obtain ⟨os, _, rfl⟩ := Option.map_eq_some_iff.mp h2
+          simp [HLO.isReduce] at hred
+        · cases h2
+      · cases h2
+    | none =>
+    cases h3 : tryZero (dropCasts e) shape bs with
+    | some h' =>
+      simp only [h1, h2, h3, Option.orElse, Option.some.injEq] at hr; subst hr
+      exfalso
+      unfold tryZero at h3
+      split at h3
+      · split at h3
+        · split at h3
+          · simp only [Option.some.injEq] at h3; subst h3; simp [HLO.isReduce] at hred
+          · cases h3
+        · cases h3
+      · cases h3
+    | none =>
+    cases h4 : tryWhere (dropCasts e) shape bs with
+    | some h' =>
+      simp only [h1, h2, h3, h4, Option.orElse, Option.some.injEq] at hr; subst hr
+      exfalso
+      unfold tryWhere at h4
+      split at h4
+      · split at h4
+        · simp only [Option.some.injEq] at h4; subst h4; simp [HLO.isReduce] at hred
+        · cases h4
+      · cases h4
+    | none =>
+    cases h5 : tryNot (dropCasts e) shape bs with
+    | some h' =>
+      simp only [h1, h2, h3, h4, h5, Option.orElse, Option.some.injEq] at hr; subst hr
+      exfalso
+      unfold tryNot at h5
+      split at h5
+      · split at h5
+        · simp only [Option.some.injEq] at h5; subst h5; simp [HLO.isReduce] at hred
+        · cases h5
+      · cases h5
+    | none =>
+    cases h6 : tryReduce e shape bs with
+    | some h' =>
+      simp only [h1, h2, h3, h4, h5, h6, Option.orElse, Option.some.injEq] at hr; subst hr; rfl
+    | none =>
+      simp only [h1, h2, h3, h4, h5, h6, Option.orElse] at hr
+      exfalso
+      unfold tryBroadcast at hr
+      split at hr
+      · split at hr
+        · split at hr
+          · simp only [Option.some.injEq] at hr; subst hr; simp [HLO.isReduce] at hred
+          · cases hr
+        · cases hr
+      · split at hr
+        · split at hr
+          · simp only [Option.some.injEq] at hr; subst hr; simp [HLO.isReduce] at hred
+          · cases hr
+        · cases hr
+      · cases hr
+
+/-- Soundness of raising to a `ReduceOp` (reductions over any subset of axes,
+    any of the six operators), under the side conditions `reduceSideOK` that the
+    real `_is_normal_reduce_expr` does not check (see `raise_reduce_misreads`):
+    NumPy's reduction over the recorded axes has, at every in-bounds index, the
+    value of the index lambda. -/
+theorem raise_sound_reduce (e : SExpr) (shape : Shape) (env : List (String × Arr Val)) (h : HLO)
+    (hr : raise e shape (shapesOf env) = some h) (hred : h.isReduce = true)
+    (hside : reduceSideOK e (shapesOf env) = true) :
+    ∀ i, inB shape i = true → (hloDenote h shape env).get i = eval (idxEnv i env) e :=
+  fun i hi => tryReduce_sound e shape env h (raise_reduce_inv e shape _ h hr hred) hside i hi
+
+/-! ## the real reduction check is too permissive
+
+`_is_normal_reduce_expr` (mirrored by `normalReduceAxes`) does not check that
+every reduction variable occurs exactly once in the subscript.  On hand-built
+index lambdas the raiser therefore MISREADS (confirmed on the real code):
+* `sum_r a[r, r]` (the trace) is raised to `ReduceOp(sum, a, {0: r, 1: r})` = the sum of all entries;
+* `sum_{r0<2} sum_{r1<7} a[_0, r0]` is raised to `ReduceOp(sum, a, {1: r0})`, dropping the factor 7.
+(It also does not check that every output axis is consumed, so the `ReduceOp`
+may have a different shape than the index lambda.) -/
+
+def mrA : Arr Val := Arr.ofList [2, 2] [.i 1, .i 2, .i 3, .i 4] .undef
+def mrEnv : List (String × Arr Val) := [("a", mrA)]
+def mrTrace : SExpr := .reduce .sum "_r0" (.int 0) (.int 2) (.sub "a" [.var "_r0", .var "_r0"])
+def mrUnused : SExpr :=
+  .reduce .sum "_r0" (.int 0) (.int 2)
+    (.reduce .sum "_r1" (.int 0) (.int 7) (.sub "a" [.idx 0, .var "_r0"]))
+
+theorem raise_reduce_misreads :
+    (∃ h, raise mrTrace [] (shapesOf mrEnv) = some h ∧ h.isReduce = true ∧
+      (hloDenote h [] mrEnv).get [] = .i 10 ∧ eval (idxEnv [] mrEnv) mrTrace = .i 5) ∧
+    (∃ h, raise mrUnused [2] (shapesOf mrEnv) = some h ∧ h.isReduce = true ∧
+      (hloDenote h [2] mrEnv).get [0] = .i 3 ∧ eval (idxEnv [0] mrEnv) mrUnused = .i 21) ∧
+    reduceSideOK mrTrace (shapesOf mrEnv) = false ∧
+    reduceSideOK mrUnused (shapesOf mrEnv) = false :=
+  ⟨⟨.reduce .sum "a" [(0, "_r0"), (1, "_r0")], rfl, rfl, by decide, by decide⟩,
+   ⟨.reduce .sum "a" [(1, "_r0")], rfl, rfl, by decide, by decide⟩, by decide, by decide⟩
+
 /-! ## non-vacuity: forms the array API produces are recognised …-/
 
-def exX : Arr Val := Arr.ofList [2, 3] [.i 1, .i 2, .i 3, .i 4, .i 5, .i 6] .undef
-def exY : Arr Val := Arr.ofList [3] [.i 10, .i 20, .i 30] .undef
-def exZ : Arr Val := Arr.ofList [] [.i 7] .undef
-def exEnv : List (String × Arr Val) := [("_in0", exX), ("_in1", exY), ("_in2", exZ)]
-def exBs : List (String × Shape) := [("_in0", [2, 3]), ("_in1", [3])]
+def c19X : Arr Val := Arr.ofList [2, 3] [.i 1, .i 2, .i 3, .i 4, .i 5, .i 6] .undef
+def c19Y : Arr Val := Arr.ofList [3] [.i 10, .i 20, .i 30] .undef
+def c19Z : Arr Val := Arr.ofList [] [.i 7] .undef
+def c19Env : List (String × Arr Val) := [("_in0", c19X), ("_in1", c19Y), ("_in2", c19Z)]
+def c19Bs : List (String × Shape) := [("_in0", [2, 3]), ("_in1", [3])]
 
 -- `x - y` with broadcasting, `2 - x`, `x + z` (0-d), `where`, `logical_not`, `broadcast_to`, `full`, `sin`
 example : (raise (.add (.sub "_in0" [.idx 0, .idx 1]) (.mul (.int (-1)) (.sub "_in1" [.idx 1])))
-    [2, 3] exBs).map (·.isReduce) = some false := by decide
+    [2, 3] c19Bs).map (·.isReduce) = some false := by decide
 example : ∃ h, raise (.add (.sub "_in0" [.idx 0, .idx 1]) (.mul (.int (-1)) (.sub "_in1" [.idx 1])))
-    [2, 3] (shapesOf exEnv) = some h ∧ h.isReduce = false ∧
-    (hloDenote h [2, 3] exEnv).toList = [.i (-9), .i (-18), .i (-27), .i (-6), .i (-15), .i (-24)] :=
+    [2, 3] (shapesOf c19Env) = some h ∧ h.isReduce = false ∧
+    (hloDenote h [2, 3] c19Env).toList = [.i (-9), .i (-18), .i (-27), .i (-6), .i (-15), .i (-24)] :=
   ⟨.binary .sub (.arr "_in0") (.arr "_in1"), rfl, rfl, by decide⟩
 example : ∃ h, raise (.add (.rat 2 1) (.mul (.int (-1)) (.sub "_in0" [.idx 0, .idx 1])))
-    [2, 3] (shapesOf exEnv) = some h ∧ h.isReduce = false :=
+    [2, 3] (shapesOf c19Env) = some h ∧ h.isReduce = false :=
   ⟨.binary .sub (.scalar (.rat 2 1)) (.arr "_in0"), rfl, rfl⟩
 example : ∃ h, raise (.add (.sub "_in0" [.idx 0, .idx 1]) (.var "_in2"))
-    [2, 3] (shapesOf exEnv) = some h ∧ h.isReduce = false :=
+    [2, 3] (shapesOf c19Env) = some h ∧ h.isReduce = false :=
   ⟨.binary .add (.arr "_in0") (.arr "_in2"), rfl, rfl⟩
 example : ∃ h, raise (.ite (.sub "_in0" [.idx 0, .idx 1]) (.nan) (.sub "_in1" [.idx 1]))
-    [2, 3] (shapesOf exEnv) = some h ∧ h.isReduce = false :=
+    [2, 3] (shapesOf c19Env) = some h ∧ h.isReduce = false :=
   ⟨.where_ (.arr "_in0") (.scalar .nan) (.arr "_in1"), rfl, rfl⟩
-example : ∃ h, raise (.lnot (.sub "_in0" [.idx 0, .idx 1])) [2, 3] (shapesOf exEnv) = some h
+example : ∃ h, raise (.lnot (.sub "_in0" [.idx 0, .idx 1])) [2, 3] (shapesOf c19Env) = some h
     ∧ h.isReduce = false := ⟨.logicalNot "_in0", rfl, rfl⟩
-example : ∃ h, raise (.sub "_in1" [.idx 1]) [2, 3] (shapesOf exEnv) = some h
+example : ∃ h, raise (.sub "_in1" [.idx 1]) [2, 3] (shapesOf c19Env) = some h
     ∧ h.isReduce = false := ⟨.broadcast "_in1", rfl, rfl⟩
-example : ∃ h, raise (.cast "float32" (.rat 5 2)) [2, 3] (shapesOf exEnv) = some h
+example : ∃ h, raise (.cast "float32" (.rat 5 2)) [2, 3] (shapesOf c19Env) = some h
     ∧ h.isReduce = false := ⟨.full (.rat 5 2), rfl, rfl⟩
 example : ∃ h, raise (.call "pytato.c99.sin" [.sub "_in0" [.idx 0, .idx 1]]) [2, 3]
-    (shapesOf exEnv) = some h ∧ h.isReduce = false := ⟨.call "sin" [.arr "_in0"], rfl, rfl⟩
+    (shapesOf c19Env) = some h ∧ h.isReduce = false := ⟨.call "sin" [.arr "_in0"], rfl, rfl⟩
+
+-- reductions as the API builds them: `sum(axis=1)`, `sum()` over both axes, `amax(axis=0)`
+def c19Red1 : SExpr := .reduce .sum "_r0" (.int 0) (.int 3) (.sub "_in0" [.idx 0, .var "_r0"])
+def c19RedAll : SExpr :=
+  .reduce .sum "_r0" (.int 0) (.int 2) (.reduce .sum "_r1" (.int 0) (.int 3)
+    (.sub "_in0" [.var "_r0", .var "_r1"]))
+def c19RedMax : SExpr := .reduce .max "_r0" (.int 0) (.int 2) (.sub "_in0" [.var "_r0", .idx 0])
+example : (raise c19Red1 [2] (shapesOf c19Env)).map (·.isReduce) = some true
+    ∧ reduceSideOK c19Red1 (shapesOf c19Env) = true
+    ∧ (raise c19Red1 [2] (shapesOf c19Env)).map (fun h => (hloDenote h [2] c19Env).toList)
+        = some [.i 6, .i 15] := by decide
+example : (raise c19RedAll [] (shapesOf c19Env)).map (·.isReduce) = some true
+    ∧ reduceSideOK c19RedAll (shapesOf c19Env) = true
+    ∧ (raise c19RedAll [] (shapesOf c19Env)).map (fun h => (hloDenote h [] c19Env).toList)
+        = some [.i 21] := by decide
+example : (raise c19RedMax [3] (shapesOf c19Env)).map (·.isReduce) = some true
+    ∧ reduceSideOK c19RedMax (shapesOf c19Env) = true
+    ∧ (raise c19RedMax [3] (shapesOf c19Env)).map (fun h => (hloDenote h [3] c19Env).toList)
+        = some [.i 4, .i 5, .i 6] := by decide
 
 /-! ## … and near-misses are rejected (`raise_rejects`) -/
 
